@@ -18,13 +18,13 @@ def run(ctx):
             ctx.model_check("trie", "MC_Hexary", "MC_Hexary.cfg", constants={"MaxLen": ctx.pick(8, 18)}, timeout=ctx.pick(900, 3000))
             ctx.model_check("trie", "MC_Hexary", "MC_Hexary_a3.cfg", constants={"MaxLen": ctx.pick(8, 14)}, timeout=ctx.pick(900, 3000))
             ctx.model_check("trie", "MC_Hexary", "MC_Hexary_v2.cfg", constants={"MaxOps": ctx.pick(5, 8)}, timeout=ctx.pick(900, 3000))
-            ctx.exhaustive = True
+            ctx.exhaustive = False  # TLC stage exhaustive; the replayed behaviours are random walks
         # behaviours with the real arity 16: lengths crossing 16 and 256 (thorough: 4096), rewinds around the powers
         consts = {"MaxOps": wl, "Depth": wl}
         if not ctx.quick():
             consts.update({"MaxLen": 9000, "AddSizes": "{1, 2, 15, 16, 17, 239, 256, 3839, 4096}"})
         allb = ctx.behaviours("trie", "Gen_Hexary", "Gen_Hexary.cfg", constants=consts,
-                              simulate="num=%d" % ctx.pick(50, 700), depth=wl + 1, seed=ctx.seed, timeout=ctx.pick(900, 3000))
+                              simulate="num=%d" % ctx.pick(50, 300), depth=wl + 1, seed=ctx.seed, timeout=ctx.pick(900, 3000))
         for b in allb[:3]:
             ctx.sample([{k: s.get(k) for k in ("op", "v", "n", "l", "res", "len")} for s in b])
     inp = ctx.path("in", "behaviours.ndjson")
